@@ -1,0 +1,81 @@
+//go:build verif
+
+// Contracts for package scenario (gRPC scenario gun), checked by /verif/govc. Comment-only: no code.
+package scenario
+
+//@ iface Templater.Apply
+//@ modifies elems(metadata)
+//@ iface Preprocessor.Process
+//@ modifies nothing
+//@ iface Postprocessor.Process
+//@ modifies nothing
+//@ iface SourceStorage.Variables
+//@ modifies nothing
+
+// Clones share the (read-only) call list and the variable storage; the id is per clone.
+//@ func (a *Scenario) Clone
+//@ props C11
+//@ modifies nothing
+//@ ensures typeis(result, *Scenario) && fresh(result.(*Scenario)) && result.(*Scenario).Calls == a.Calls && result.(*Scenario).Name == a.Name && result.(*Scenario).VariableStorage == a.VariableStorage && result.(*Scenario).id == 0
+
+// New variables never replace earlier ones; only the first map is written.
+//@ func mergeMaps
+//@ props C11 C15
+//@ nilsafe
+//@ requires previous != nil
+//@ loop 0 invariant [earlier-variables-kept] forall_t(q, string, imp(old(has(previous, q)), has(previous, q) && previous[q] == old(previous[q])))
+//@ ensures [same-map-comes-back] result == previous
+//@ ensures [earlier-variables-kept] forall_t(q, string, imp(old(has(previous, q)), has(previous, q) && previous[q] == old(previous[q])))
+//@ modifies elems(previous)
+
+// Metadata templates are rendered into the map they are given (the caller passes a per-shot copy); the payload is returned.
+//@ func (t *TextTemplater) getTemplate
+//@ props C11 C20
+//@ nilsafe
+//@ env [the-cache-holds-templates] pooltype(t.templatesCache, *template.Template)
+//@ modifies nothing
+//@ ensures iff(result1 == nil, result0 != nil)
+
+//@ func (t *TextTemplater) Apply
+//@ props C11 C20
+//@ nilsafe
+//@ loop 0 invariant tmpl != nil && strBuilder != nil
+//@ modifies elems(metadata)
+
+// One step: render, look the method up, send; exactly one sample per executed step whatever happens; the scenario
+// definition (step.Metadata, step.Payload) is only read.
+//@ func (g *Gun) shootStep
+//@ props C10 C11 C19 C20
+//@ nilsafe
+//@ requires g.gun != nil && g.gun.Aggr != nil && g.gun.Stub != nil && g.templ != nil && step != nil && sample != nil && requestVars != nil
+//@ requires forall(k, 0, len(step.Preprocessors), step.Preprocessors[k] != nil) && forall(k, 0, len(step.Postprocessors), step.Postprocessors[k] != nil)
+//@ loop 0 invariant preprocVars != nil && fresh(preprocVars) && stepVars != nil && fresh(stepVars) && ev(report) == old(ev(report)) && calls(g.templ.Apply) == 0
+//@ loop 1 invariant stepMetadata != nil && stepMetadata != step.Metadata && fresh(stepMetadata) && stepVars != nil && fresh(stepVars)
+//@ loop 2 invariant stepVars != nil && fresh(stepVars) && ev(report) == old(ev(report)) && stepMetadata != nil && fresh(stepMetadata)
+//@ ensures [exactly-one-sample-per-executed-step] ev(report) == old(ev(report)) + 1
+//@ ensures [unknown-method-fails-the-step] imp(calls(g.templ.Apply) == 1 && result_of(g.templ.Apply, 1) == nil && !has(g.gun.Services, step.Call), result != nil && calls(g.gun.Stub.InvokeRpc) == 0)
+//@ ensures [payload-that-does-not-fit-fails-the-step] imp(calls(message.UnmarshalJSON) == 1 && result_of(message.UnmarshalJSON, 0) != nil, result != nil && calls(g.gun.Stub.InvokeRpc) == 0)
+//@ at call g.templ.Apply assert [rendered-into-a-per-shot-copy-of-the-metadata] arg(metadata) != step.Metadata && fresh(arg(metadata)) && arg(payload) == step.Payload && arg(variables) == templateVars && arg(scenarioName) == ammoName && arg(stepName) == step.Name
+//@ at call message.UnmarshalJSON assert [rendered-payload-read-against-the-input-type] arg(a0) == result_of(g.templ.Apply, 0) && arg(recv) == result_of(dynamic.NewMessage, 0)
+//@ at call dynamic.NewMessage#0 assert [input-type-of-the-method] arg(a0) == result_of(method.GetInputType, 0)
+//@ at call context.WithTimeout assert [configured-timeout] arg(a1) == ite(g.gun.Conf.Timeout != 0, g.gun.Conf.Timeout, defaultTimeout)
+//@ at call metadata.New assert [rendered-metadata] arg(a0) == stepMetadata
+//@ at call metadata.NewOutgoingContext assert [metadata-attached-to-the-call-context] arg(a0) == result_of(context.WithTimeout, 0) && arg(a1) == result_of(metadata.New, 0)
+//@ at call g.gun.Stub.InvokeRpc assert [the-named-method-with-that-message-and-context] has(g.gun.Services, step.Call) && method == g.gun.Services[step.Call] && arg(a0) == result_of(metadata.NewOutgoingContext, 0) && arg(a2) == box(result_of(dynamic.NewMessage, 0))
+//@ at call grpcgun.ConvertGrpcStatus assert [status-of-the-call] arg(err) == result_of(g.gun.Stub.InvokeRpc, 1)
+//@ at call g.gun.Aggr.Report assert [the-step-sample] arg(a0) == box(sample)
+//@ modifies ev(report), sample.tags, sample.err, sample.fields, elems(requestVars)
+
+// A shot: the calls in the listed order, one sample per executed call tagged <scenario>.<call tag>, stop at the first failure.
+//@ func (g *Gun) shoot
+//@ props C10 C15 C19 C20
+//@ nilsafe
+//@ requires ammo != nil && g.gun != nil && g.gun.Aggr != nil && g.gun.Stub != nil && g.templ != nil
+//@ requires forall(j, 0, len(ammo.Calls), forall(k, 0, len(ammo.Calls[j].Preprocessors), ammo.Calls[j].Preprocessors[k] != nil) && forall(k, 0, len(ammo.Calls[j].Postprocessors), ammo.Calls[j].Postprocessors[k] != nil))
+//@ loop 0 invariant [calls-executed-so-far-succeeded] calls(g.shootStep) == rangeidx && imp(rangeidx > 0, result_of(g.shootStep, 0) == nil) && templateVars != nil
+//@ loop 0 invariant [one-sample-per-executed-call] ev(report) == old(ev(report)) + rangeidx
+//@ at call netsample.Acquire assert [sample-tag-is-scenario-dot-call-tag] arg(tag) == ammo.Name + "." + call.Tag
+//@ at call g.shootStep assert [the-next-listed-call-with-its-own-sample] arg(sample) == result_of(netsample.Acquire, 0) && arg(ammoName) == ammo.Name
+//@ ensures [all-calls-on-success] imp(result == nil, calls(g.shootStep) == len(ammo.Calls))
+//@ ensures [stops-at-the-first-failed-call] imp(result != nil, result == result_of(g.shootStep, 0))
+//@ ensures [one-sample-per-executed-call] ev(report) == old(ev(report)) + calls(g.shootStep)
